@@ -49,3 +49,52 @@ Print Assumptions C04_density_is_exp_log_prob.
 Theorem C04_every_call_gets_the_embedded_context : flow_every_call_gets_embedded_context = true.
 Proof. reflexivity. Qed.
 Print Assumptions C04_every_call_gets_the_embedded_context.
+
+(* ---- the sampling paths REGENERATED from the source (Gen/FlowRows.v: Flow._sample, Flow.sample_and_log_prob and
+   ConditionalDiagonalNormal._sample as programs over row batches) are the model, hence pair draws with context rows ---- *)
+From NF Require Import Model.RowLayout Gen.FlowRows Proofs.RowLayoutP.
+
+Theorem C04_generated_flow_sample_is_the_model : forall (ZT CT XT : Type) (inv : ZT -> CT -> XT) (n : nat)
+  (noise : list (list ZT)) (ctx : list CT),
+  (0 < n)%nat -> length noise = length ctx -> List.Forall (fun row => length row = n) noise ->
+  flow_sample_gen inv n noise ctx = flow_sample inv n noise ctx /\
+  (* ... and therefore sample [i][j] is the inverse of noise [i][j] under context row i *)
+  flow_sample_gen inv n noise ctx = zip_with (fun row c => map (fun z => inv z c) row) noise ctx.
+Proof.
+  intros ZT CT XT inv n noise ctx Hn Hl Hf.
+  assert (E : flow_sample_gen inv n noise ctx = flow_sample inv n noise ctx) by (apply (flow_program_is_the_model inv n noise ctx Hn Hl Hf)).
+  split; [exact E|]. rewrite E. apply flow_sample_pairing; assumption.
+Qed.
+Print Assumptions C04_generated_flow_sample_is_the_model.
+
+(* sample_and_log_prob runs the same pairing for the samples and for the inverse's log-abs-dets *)
+Theorem C04_generated_sample_and_log_prob_pairs_both : forall (ZT CT XT LT BT : Type) (inv : ZT -> CT -> XT) (invlad : ZT -> CT -> LT)
+  (n : nat) (noise : list (list ZT)) (blp : BT) (ctx : list CT),
+  (0 < n)%nat -> length noise = length ctx -> List.Forall (fun row => length row = n) noise ->
+  flow_sample_and_log_prob_gen inv invlad n noise blp ctx
+  = (zip_with (fun row c => map (fun z => inv z c) row) noise ctx,
+     (blp, zip_with (fun row c => map (fun z => invlad z c) row) noise ctx)).
+Proof.
+  intros ZT CT XT LT BT inv invlad n noise blp ctx Hn Hl Hf. unfold flow_sample_and_log_prob_gen. cbv zeta.
+  pose proof (flow_program_is_the_model inv n noise ctx Hn Hl Hf) as E1.
+  pose proof (flow_program_is_the_model invlad n noise ctx Hn Hl Hf) as E2.
+  unfold flow_program in E1, E2. cbv zeta in E1, E2. rewrite E1, E2. rewrite !flow_sample_pairing by assumption. reflexivity.
+Qed.
+Print Assumptions C04_generated_sample_and_log_prob_pairs_both.
+
+(* ConditionalDiagonalNormal._sample: draw j of block i is mean_i + exp(log_std_i) * noise_{i n + j}: the parameters of context
+   row i, never another row's *)
+Theorem C04_generated_conditional_normal_sampling_pairs_rows : forall (T : Type) (O : ops T) (means log_stds noise : list (list T))
+  (k n i j : nat),
+  length means = k -> length log_stds = k -> length noise = (k * n)%nat -> (i < k)%nat -> (j < n)%nat ->
+  nth j (nth i (cdn_sample_gen O means log_stds noise k n) []) []
+  = zip_with (o_add O) (nth i means []) (zip_with (o_mul O) (map (o_exp O) (nth i log_stds [])) (nth (i * n + j)%nat noise [])).
+Proof.
+  intros T O means log_stds noise k n i j Hm Hs Hz Hi Hj.
+  change (cdn_sample_gen O means log_stds noise k n) with (cdn_program (o_add O) (o_mul O) means (rows_map (o_exp O) log_stds) noise k n).
+  rewrite cdn_program_pairing; try assumption.
+  - unfold rows_map. f_equal. f_equal. rewrite (nth_indep _ [] (map (o_exp O) [])) by (rewrite map_length, Hs; exact Hi).
+    apply map_nth.
+  - unfold rows_map. rewrite map_length. exact Hs.
+Qed.
+Print Assumptions C04_generated_conditional_normal_sampling_pairs_rows.
